@@ -9,6 +9,12 @@ NOTE_COMMON = ("Trusted base: z3 5.1.0, CrossHair 0.0.110 symbolic models of str
                "Verdicts hold inside the stated bounds only; INCONCLUSIVE obligations are listed in the evidence and are never counted as discharged.")
 
 CHECKS = {
+ "C17": dict(
+    technique="bounded symbolic execution of the real whitespace filter (CrossHair/z3) against a stack-based reference; direct z3 query on the live SPACES_REGEX character class",
+    text="Bounded model checking of whitespace.Filter.__iter__ and collapse_spaces: every stream of <= 2 (quick) / 3 (thorough) tokens with unbounded symbolic type and element name and text of <= 2 arbitrary Unicode characters "
+         "is compared with an independent explicit-stack reference (R8), plus idempotence and a nesting-depth step inside every preserve element; the regex class is decided for all code points directly in z3 from the live pattern.",
+    note="R8 reference and the walker well-nestedness contract are trusted; longer streams/text are outside the bound. " + NOTE_COMMON,
+    design="§3 C17"),
  "C13": dict(
     technique="bounded symbolic execution of the real filter methods (CrossHair/z3) with unbounded symbolic tag names and token types; counterexamples replayed concretely",
     text="Bounded model checking of optionaltags.Filter: is_optional_start/is_optional_end are executed symbolically with UNBOUNDED string names/types for tag, previous and next token and "
